@@ -46,8 +46,15 @@ type Gen struct {
 	ops      []string
 	Avoid    func(s Step, mr *MRunner) string // guard name if the step must be steered away
 	Excluded map[string]int
-	Markers  bool // C09: every name/content carries a marker
+	Markers  bool // C09: every name, content, owner and timestamp carries a marker
 }
+
+// Marker values used when Gen.Markers is set (DESIGN §4/C09).
+var (
+	MarkerUIDs  = []int{7654321, 6543217, 5432176}
+	MarkerGIDs  = []int{8765432, 7654328, 6543287}
+	MarkerTimes = []int64{1234567891, 1987654321, 1357924680}
+)
 
 func NewGen(t *rapid.T, weights map[string]int, universe []string, ncomps int, rs int) *Gen {
 	g := &Gen{Weights: weights, RS: rs, MaxSize: 300 << 10, Excluded: map[string]int{}}
@@ -159,6 +166,12 @@ func (g *Gen) size(t *rapid.T) int {
 func (g *Gen) content(t *rapid.T, s *Step) {
 	s.Size = g.size(t)
 	s.Dist = rapid.IntRange(0, 3).Draw(t, "dist")
+	if g.Markers {
+		s.Dist = rapid.SampledFrom([]int{1, 3, 3}).Draw(t, "mdist")
+		if s.Size > 0 && s.Size < 24 {
+			s.Size = 24
+		}
+	}
 	s.Seed = rapid.Uint64Range(0, 1<<20).Draw(t, "seed")
 }
 
@@ -179,6 +192,9 @@ func (g *Gen) perm(t *rapid.T) uint32 {
 }
 
 func (g *Gen) time(t *rapid.T, label string) int64 {
+	if g.Markers {
+		return rapid.SampledFrom(MarkerTimes).Draw(t, label+"_marker")*1e9 + 123456789
+	}
 	sec := rapid.Int64Range(0, 7258118400).Draw(t, label+"_s") // 1970..2200
 	ns := rapid.SampledFrom([]int64{0, 1, 999999999, 500000000, 123456789}).Draw(t, label+"_ns")
 	return sec*1e9 + ns
@@ -285,6 +301,10 @@ func (g *Gen) draw1(t *rapid.T, mr *MRunner) Step {
 		if op == "chown" {
 			s.UID = rapid.SampledFrom([]int{0, 1, 1000, 65534, 2097151, 2097152, 1<<31 - 1}).Draw(t, "uid")
 			s.GID = rapid.SampledFrom([]int{0, 1, 1000, 65534, 2097151, 2097152, 1<<31 - 1}).Draw(t, "gid")
+			if g.Markers {
+				s.UID = rapid.SampledFrom(MarkerUIDs).Draw(t, "muid")
+				s.GID = rapid.SampledFrom(MarkerGIDs).Draw(t, "mgid")
+			}
 		}
 		if op == "chtimes" {
 			s.Atime = g.time(t, "atime")
